@@ -343,8 +343,19 @@ def rule_i(ctx):
     c13d(ctx)
 
 
-def _text_ast(node):
+_TEXT_RESOLVER = []  # (repo, module) of the expression being judged, set by the rules that can resolve helpers
+
+
+def _text_ast(node, _depth=0):
     """AST expression whose value is text (str/bytes) or None whatever the operands are."""
+    if isinstance(node, ast.Call) and isinstance(node.func, ast.Name) and _TEXT_RESOLVER and _depth < 2:
+        repo, mod = _TEXT_RESOLVER[-1]
+        r = repo.resolve_name(mod, node.func.id)
+        if isinstance(r, list) and r:
+            from ..astutil import returned_exprs
+            rets = [x for g in r for x in returned_exprs(g.node)]
+            if rets and all(_text_ast(x, _depth + 1) for x in rets):
+                return True
     if isinstance(node, ast.Constant):
         return node.value is None or isinstance(node.value, (str, bytes))
     if isinstance(node, ast.JoinedStr):
@@ -435,7 +446,12 @@ def rule_j(ctx):
                         arg = kw.value
                 if arg is None and len(n.args) > pos:
                     arg = n.args[pos]
-                if arg is not None and not _text_ast(arg):
+                _TEXT_RESOLVER.append((repo, fn.module))
+                try:
+                    is_text = arg is None or _text_ast(arg)
+                finally:
+                    _TEXT_RESOLVER.pop()
+                if not is_text:
                     bad_sites.append('%s line %d passes %s' % (fn.qualname, n.lineno, ast.unparse(arg)))
     if n_sites < 5:
         raise AnalysisError('C12.g: only %d constructions of the protocol error found' % n_sites)
@@ -687,7 +703,7 @@ def rule_error_conversion(ctx, rule='C12.l'):
             detail or 'stream id, code and data as raised on both paths')
     # the reverse direction
     fr = ('param', g.qualname, g.params()[0])
-    ps = [p for p in ctx.paths(g, None, inline_depth=0) if p.outcome == 'return']
+    ps = [p for p in ctx.paths(g, None, inline_depth=2) if p.outcome == 'return']
     ok, detail = len(ps) >= 2, '' if len(ps) >= 2 else 'expected two paths'
     seen = set()
     for p in ps:
@@ -1063,5 +1079,44 @@ def rule_transport_errors_come_from_transports(ctx):
 
 
 
+
+def rule_text_can_be_encoded_again(ctx):
+    """C12.q  Text the library decodes from the wire can be put on the wire again.  The text of a received ERROR frame
+    travels in the exception the application is handed; when application code fails with it, the receive loop's
+    `except` branches turn the failure into an ERROR reply with exception_to_error_frame, which encodes the text strictly
+    - outside the per-frame containment.  `bytes.decode(errors='surrogateescape' / 'surrogatepass')` produces lone
+    surrogates that `str.encode()` rejects: one ERROR frame with non-UTF-8 data would end the receiver task.  No decode
+    in the library uses those error handlers (strict, replace and ignore all give text that encodes)."""
+    rep = ctx.report
+    n = 0
+    bad = []
+    for f in ctx.repo.all_functions():
+        if not f.module.name.startswith(('rsocket.', 'reactivestreams.')) or f.module.name.startswith('rsocket.cli'):
+            continue
+        for c in walk_local(f.node):
+            if isinstance(c, ast.Call) and isinstance(c.func, ast.Attribute) and c.func.attr == 'decode':
+                n += 1
+                mode = None
+                for kw in c.keywords:
+                    if kw.arg == 'errors':
+                        mode = kw.value
+                if mode is None and len(c.args) > 1:
+                    mode = c.args[1]
+                if mode is None:
+                    continue
+                if not isinstance(mode, ast.Constant) or mode.value in ('surrogateescape', 'surrogatepass'):
+                    bad.append((f, c, ast.unparse(mode)))
+    rep.require('C12.q', 'decode() calls in the library', n, 5)
+    for f, c, mode in bad:
+        rep.bad('C12.q', '%s / decode(errors=%s)' % (f.short, mode), f,
+                'line %d: the decoded text can contain lone surrogates; exception_to_error_frame encodes error text '
+                'strictly from inside the receive loop\'s except branch - UnicodeEncodeError there ends the receiver'
+                % c.lineno)
+    if not bad:
+        rep.ok('C12.q', 'decoded text / can be encoded again', ctx.repo.func('rsocket.frame:exception_to_error_frame'),
+               '%d decode() calls, none with a surrogate error handler' % n)
+
+
+
 RULES = [('C12.a', rule_a), ('C12.b', rule_b), ('C12.c', rule_c), ('C12.d', rule_d), ('C12.e', rule_e),
-         ('C12.f', rule_f), ('C14.f', rule_g), ('C12.b', rule_h), ('C13.d', rule_i), ('C12.g', rule_j), ('C12.h', rule_k), ('C12.i', rule_l), ('C12.j', rule_m), ('C12.k', rule_exception_text), ('C12.l', rule_error_conversion), ('C02.h', rule_decoder_entry), ('C12.m', rule_empty_messages), ('C04.j', rule_marker_queues), ('C12.n', rule_future_inspection), ('C04.l', rule_short_fields_fail), ('C12.o', rule_error_codes_are_members), ('C04.m', rule_queue_items), ('C12.p', rule_transport_errors_come_from_transports)]
+         ('C12.f', rule_f), ('C14.f', rule_g), ('C12.b', rule_h), ('C13.d', rule_i), ('C12.g', rule_j), ('C12.h', rule_k), ('C12.i', rule_l), ('C12.j', rule_m), ('C12.k', rule_exception_text), ('C12.l', rule_error_conversion), ('C02.h', rule_decoder_entry), ('C12.m', rule_empty_messages), ('C04.j', rule_marker_queues), ('C12.n', rule_future_inspection), ('C04.l', rule_short_fields_fail), ('C12.o', rule_error_codes_are_members), ('C04.m', rule_queue_items), ('C12.p', rule_transport_errors_come_from_transports), ('C12.q', rule_text_can_be_encoded_again)]
